@@ -59,8 +59,59 @@ def oracle(line, size, inc):
     return None
 
 
-def mk_case(ps, inc, lvl, pieces, pat=None):
-    return ["crinit %d %d %d%s" % (ps, inc, lvl, (" " + ",".join(map(str, pat))) if pat else "")] + ["crfeed " + hx(p) for p in pieces]
+def mk_case(ps, inc, lvl, pieces, pat=None, fill=None):
+    return ["crinit %d %d %d%s" % (ps, inc, lvl, (" " + ",".join(map(str, pat))) if pat else ""),
+            "crfill %s" % ("off" if fill is None else str(fill))] + ["crfeed " + hx(p) for p in pieces]
+
+
+FILLS = [10, 13, 48, 0, 90, 58, 32]     # LF CR '0' NUL 'Z' ':' SP — what stale bytes behind the fill level could look like
+
+
+def twin(ps, inc, lvl, pieces, pat, rng):
+    """the same script twice with two different bytes behind the fill level: the outcomes must not differ"""
+    f1 = 10
+    f2 = rng.choice([90, 13, 48, 0])
+    a = mk_case(ps, inc, lvl, pieces, pat, f1)
+    return a + mk_case(ps, inc, lvl, pieces, pat, f2), len(a)
+
+
+LOOKED_UP = [b"Connection", b"Host", b"Content-Length", b"Transfer-Encoding", b"Expect", b"Cookie", b"Authorization", b"Upgrade"]
+
+
+def recase(name, rng):
+    return rng.choice([name, name.lower(), name.upper(), bytes(c ^ 32 if chr(c).isalpha() and rng.random() < 0.5 else c for c in name)])
+
+
+def collision_requests(rng):
+    """request elements of OTHER kinds (query arguments with value / empty value / valueless, trailers) named exactly
+    like the header fields MHD looks up itself"""
+    out = []
+    for name in LOOKED_UP:
+        for form in (b"", b"=", b"=x", b"=close", b"=Keep-Alive"):
+            for ver in (b"1.1", b"1.0"):
+                n = recase(name, rng)
+                q = rng.choice([b"?" + n + form, b"?a=1&" + n + form, b"?" + n + form + b"&b", b"?" + n + form + b"&" + n])
+                hdr = rng.choice([b"", b"Connection: Keep-Alive\r\n", b"Connection: close\r\n"])
+                out.append(b"GET /page" + q + b" HTTP/" + ver + b"\r\nHost: h\r\n" + hdr + b"\r\n" + rng.choice([b"", b"GET /n HTTP/1.1\r\nHost: h\r\n\r\n"]))
+        # a trailer named like a looked-up header
+        n = recase(name, rng)
+        out.append(b"POST /u HTTP/1.1\r\nHost: h\r\nTransfer-Encoding: chunked\r\n\r\n2\r\nab\r\n0\r\n" + n + b": close\r\n\r\nGET /n HTTP/1.1\r\nHost: h\r\n\r\n")
+    return out
+
+
+def framing_requests(rng):
+    """small chunked uploads whose payload, once compacted away, leaves remnants behind the fill level that look
+    like valid framing (LF, last-chunk line, a pipelined request line)"""
+    head = b"POST /u HTTP/1.1\r\nHost: h\r\nTransfer-Encoding: chunked\r\n\r\n"
+    pay = [b"ab\n0\r\n\r\ngh", b"\n0\r\n\r\nGET / HTTP/1.1\r\n\r\n", b"\r\n0\r\n\r\n\n\n\n", b"xy\n\n0\n\n", b"0\r\n\r\n0\r\n\r\n"]
+    out = []
+    for p1 in pay:
+        p2 = rng.choice([b"wxyz", b"w", b"\n\n\n\n", b"0\r\nq"])
+        tr = rng.choice([b"", b"T: v\r\n", b"Connection: close\r\n"])
+        out.append((head, b"%x\r\n" % len(p1) + p1 + b"\r\n" + b"%x\r\n" % len(p2) + p2 + b"\r\n" + b"0\r\n" + tr + b"\r\n"))
+        out.append((head, b"%x;e=1\r\n" % len(p1) + p1 + b"\r\n" + b"0;l\r\n" + tr + b"\r\n" + b"GET /n HTTP/1.1\r\nHost: h\r\n\r\n"))
+    return out
+
 
 
 def body_request(rng, ps):
@@ -75,7 +126,7 @@ def body_request(rng, ps):
         req = b"POST /u HTTP/" + ver + b"\r\nHost: h\r\n" + conn + b"Transfer-Encoding: chunked\r\n\r\n"
         left, i = size, 0
         while left > 0:
-            n = min(left, rng.choice([1, 7, 16, 100, 1000]))
+            n = min(left, rng.choice([1, 7, 16, 100, 1000] if size <= 600 else [100, 333, 1000]))
             ext = rng.choice([b"", b"", b";x=y", b" ;a", b";" + b"e" * rng.choice([3, 40])])
             eol = rng.choice([b"\r\n", b"\r\n", b"\r\n", b"\n"])
             req += (b"%x" % n if rng.random() < 0.8 else b"%X" % n) + ext + eol + data[i:i + n] + eol
@@ -102,11 +153,40 @@ def gen_cases(ctx, n_random):
                     continue
                 data = C01.build_request(total, last, rng.choice([b"1.0", b"1.1"]), rng.choice(["none", "junk", "next"]), rng)
                 how = rng.choice(["whole", "mark", "rand"] + (["bytes"] if len(data) <= 300 else []))
-                cases.append((mk_case(ps, rng.choice(incs), rng.randint(-3, 3), C01.splits_of(data, how, rng, marks)),
+                cases.append((mk_case(ps, rng.choice(incs), rng.randint(-3, 3), C01.splits_of(data, how, rng, marks), None, rng.choice(FILLS + [None])),
                               {"fam": "sized:" + last, "how": how}))
+    # splits at EVERY byte of the chunk framing, adversarial stale bytes behind the fill level, two fill bytes each
+    frs = framing_requests(rng)
+    if ctx.tier == "quick":
+        frs = rng.sample(frs, 4)
+    for head, body in frs:
+        ps = rng.choice([256, 512, 1024])
+        lvl = rng.choice([0, 0, 1, 3, -1, -3])
+        pat = rng.choice([None, None, None, [1000000], [3]])
+        for p in range(1, len(body)):
+            # the head and the first part in one read (so that the payload is compacted away), then the rest
+            for pieces in ([head + body[:p], body[p:]], [head, body[:p], body[p:]]):
+                c, half = twin(ps, 16, lvl, pieces + [b""], pat, rng)
+                cases.append((c, {"fam": "framing-splits", "how": "every", "half": half}))
+        # the split right behind every CR, three pieces
+        crs = [i + 1 for i in range(len(body)) if body[i:i + 1] == b"\r"]
+        for a in crs:
+            for b2 in crs:
+                if a < b2:
+                    c, half = twin(ps, 16, lvl, [head + body[:a], body[a:b2], body[b2:], b""], pat, rng)
+                    cases.append((c, {"fam": "framing-splits", "how": "cr-pairs", "half": half}))
+    # names that collide across element kinds
+    cols = collision_requests(rng)
+    if ctx.tier == "quick":
+        cols = rng.sample(cols, 40)
+    for data in cols:
+        ps = rng.choice([512, 1024, 4096])
+        how = rng.choice(["whole", "whole", "rand"])
+        c, half = twin(ps, rng.choice([16, 256]), rng.randint(-3, 3), C01.splits_of(data, how, rng) + [b""], None, rng)
+        cases.append((c, {"fam": "kind-collisions", "how": how, "half": half}))
     # bodies (identity / chunked / trailers), handler take patterns, pipelined sequences, idle rounds without data
     for i in range(n_random):
-        ps = rng.choice(pools)
+        ps = rng.choice([128, 256, 512, 1024, 2048, 4096])
         nreq = rng.choice([1, 1, 2, 3])
         data = b"".join(rng.choice([body_request(rng, ps), b"GET /n HTTP/1.1\r\nHost: h\r\n\r\n",
                                    C01.build_request(rng.choice([40, ps // 2]), "arg", b"1.1", "none", rng)]) for _ in range(nreq))
@@ -121,7 +201,11 @@ def gen_cases(ctx, n_random):
                 pieces.append(b"")
         pieces += [b""] * rng.choice([0, 2, 6])
         pat = rng.choice([None, None, [1], [0, 5], [3, 0, 0, 100], [ps], [7, 1000000], [0]])
-        cases.append((mk_case(ps, rng.choice(incs), rng.randint(-3, 3), pieces, pat), {"fam": fam, "how": how}))
+        if rng.random() < 0.5:
+            c, half = twin(ps, rng.choice(incs), rng.randint(-3, 3), pieces, pat, rng)
+            cases.append((c, {"fam": fam, "how": how, "half": half}))
+        else:
+            cases.append((mk_case(ps, rng.choice(incs), rng.randint(-3, 3), pieces, pat, rng.choice(FILLS)), {"fam": fam, "how": how}))
     for i in range(n_random):
         ps = rng.choice(pools)
         r = rng.random()
@@ -146,7 +230,7 @@ def gen_cases(ctx, n_random):
                                                 rng.choice([b"1.0", b"1.1"]), "next", rng), rng)
             fam = "mutated-sized"
         how = rng.choice(["whole", "rand", "rand"] + (["bytes"] if len(data) <= 200 else []))
-        cases.append((mk_case(ps, rng.choice(incs), rng.randint(-3, 3), C01.splits_of(data, how, rng)), {"fam": fam, "how": how}))
+        cases.append((mk_case(ps, rng.choice(incs), rng.randint(-3, 3), C01.splits_of(data, how, rng), None, rng.choice(FILLS + [None])), {"fam": fam, "how": how}))
     return cases
 
 
@@ -164,6 +248,16 @@ def run_batch(harness, driver, batch, failures, stats):
         return
     k = 0
     for c, meta in batch:
+        half = meta.get("half")
+        if half and k + len(c) <= len(hout):
+            # independent oracle: what the real code does must not depend on the bytes behind the fill level
+            for j in range(2, half):
+                a, b2 = hout[k + j], hout[k + half + j]
+                if a != b2:
+                    failures.append(vlib.Failure("oracle", "connread: outcome depends on bytes behind the fill level (read beyond read_buffer_offset)",
+                                                 "fill %s: '%s' / fill %s: '%s'" % (c[1].split()[1], a[:160], c[half + 1].split()[1], b2[:160]),
+                                                 c[:j + 1] + c[half:half + j + 1], "mem"))
+                    break
         size, inc = 0, 0
         prev = None
         for j, l in enumerate(c):
@@ -173,6 +267,9 @@ def run_batch(harness, driver, batch, failures, stats):
                 w = l.split()
                 inc = int(w[2])
                 size = int(kv(h).get("end", "0"))
+                prev = None
+            if l.startswith("crfill"):
+                continue
             e = oracle(h, size, inc)
             if e:
                 failures.append(vlib.Failure("oracle", "connread: " + re.sub(r"\d+", "N", e), e + " | " + h[:160], c[:j + 1], "mem"))
@@ -215,7 +312,8 @@ def explore(ctx, harness, driver, boost):
         if len(failures) > 20:
             break
     nontriv = {json.dumps(c) for c, _ in cases if len(c) > 1}
-    cov = {"evaluations": len(cases), "chunks_compared": sum(len(c) - 1 for c, _ in cases),
+    cov = {"evaluations": len(cases), "chunks_compared": sum(sum(1 for l in c if l.startswith("crfeed")) for c, _ in cases),
+           "twin_fill_cases": sum(1 for _, m in cases if m.get("half")),
            "distinct_nontrivial": len(nontriv), "rule": "distinct scripts that feed at least one chunk",
            "samples": [cases[0][0][:3], cases[len(cases) // 2][0][:3]], "outcomes": stats, "exhaustive": False}
     return failures, cov
